@@ -8,7 +8,8 @@ SPEC = dict(
                "entries are exactly the distinct offered hashes in (0, theta) (no duplicates, count field exact); theta never "
                "increases and is below its initial value only after more than k qualifying distinct hashes; while theta is initial "
                "the sketch holds every qualifying hash and for p = 1 the binary64 estimate equals the count exactly (x / 1.0 = x via "
-               "Flocq); trim leaves exactly the k smallest with theta = the (k+1)-th; reset = fresh state; compact(ordered) has the "
+               "Flocq), in every mode the estimate of a non-empty sketch is a finite f64 >= the retained count (no closeness bound for "
+               "the doubly rounded quotient is stated); trim leaves exactly the k smallest with theta = the (k+1)-th; reset = fresh state; compact(ordered) has the "
                "same entries, count, emptiness, bit-identical estimate, theta (when non-empty), is strictly sorted whenever it says "
                "ordered; no history reaches a panic site because find_in_entries always succeeds (open-addressing invariant, "
                "n <= capacity < size); n <= 15/16 * 2^(lg_k+1). Refinement: after every history (lg_cur, theta, sorted entries, is_empty) "
